@@ -5,7 +5,7 @@ EXTENDS PyScope, Json, TLC
 \* the binding scope of every token, the name table of every scope, the
 \* resolution of every (scope, name), well-formedness.
 EvRec(P, e) == [s |-> e[1], op |-> e[2], n |-> e[3], k |-> e[4], b |-> BScope(P, e),
-                det |-> Determined(P, e), lc |-> InLib(P, e), sc |-> IsSibTok(e)]
+                det |-> Determined(P, e), lc |-> InLib(P, e), sc |-> InSib(P, e)]
 
 ProgramRecord(P) ==
   [ scopes  |-> P.scopes,
